@@ -45,7 +45,7 @@ Record ascii_code := {
 Definition ascii_skel_expected : pskel :=
   {| sk_loop := LWhileReady;
      sk_body := [PIf PCheck
-                   [PIf PUnit [PDeliverInline] [PReset]]
+                   [PIf PUnit [PDeliverInline] [PAdvance]]
                    [PIf (PHdr "droptest") [PDropOne] [PBreak]]] |}.
 
 Definition ascii_pieces_expected : list piece := [PcStart; PcParams; PcEncoded; PcChecksum; PcEnd].
@@ -147,7 +147,7 @@ Fixpoint a_loop (fuel : nat) (units : list Z) (single : bool) (st : astate) : as
                     | DMsg _ => cons_da (a_deliv frame (a_hdr st1)) (a_loop f units single (a_advance st1))
                     end
                 end
-            | Ok false => a_loop f units single (a_reset st1)
+            | Ok false => a_loop f units single (a_advance st1)
             end
         | (st1, false) =>
             if beval (aenv st1) (a_droptest C) then a_loop f units single (a_dropone st1)
